@@ -61,7 +61,7 @@ class Public(Case):
 
     def inputs(self, mk):
         p = self.params
-        specs = [shell_spec(mk, "ABCD"[i], l, K, M) for i, (l, K, M) in enumerate(zip(p["ls"], p["Ks"], p["Ms"]))]
+        specs = cm.specs_from(mk, p)
         return dict(specs=specs)
 
     def code(self, I, mk):
@@ -86,7 +86,7 @@ class Asymm(Case):
 
     def inputs(self, mk):
         p = self.params
-        specs = [shell_spec(mk, "ABCD"[i], l, K, M) for i, (l, K, M) in enumerate(zip(p["ls"], p["Ks"], p["Ms"]))]
+        specs = cm.specs_from(mk, p)
         return dict(specs=specs)
 
     def _split(self, I, mk):
@@ -127,6 +127,8 @@ def cases(tier):
     out.append(Public(ls=[2], types="s", Ks=[1], Ms=[2]))
     out.append(Public(ls=[2, 1], types="sc", Ks=[1, 1], Ms=[1, 1]))
     out.append(Public(ls=[1, 2], types="cs", Ks=[1, 1], Ms=[1, 1]))
+    # homonuclear: the same shell parameters on two centres, a second shell on the first centre
+    out.append(Public(ls=[1, 1, 0], types="csc", Ks=[1, 1, 1], Ms=[1, 1, 1], twin={"1": 0}, share={"2": 0}))
     out.append(Asymm(ls=[1, 0, 1], types="ccs", Ks=[1, 1, 1], Ms=[1, 2, 1], n1=1))
     out.append(Asymm(ls=[0, 2, 1], types="csc", Ks=[2, 1, 1], Ms=[1, 1, 1], n1=2))
     if tier == "thorough":
